@@ -18,7 +18,8 @@ import sys
 import time
 
 V = os.path.dirname(os.path.dirname(os.path.abspath(__file__)))
-R = '/repo'
+R = os.environ.get('F8_REPO', '/repo')      # a side tree for development runs (results are then not saved)
+SAVE = R == '/repo'
 
 
 def sh(cmd, cwd=None, timeout=3600, env=None):
@@ -131,8 +132,10 @@ def drill(ids, all_checks):
         print('%-10s %s own-check=%s also=%s%s' % (i, prop, status, [p for p in caught if p != prop], flag))
         for p, ks in results[i]['reported'].items():
             print('           %s: %s' % (p, ', '.join(ks)[:300]))
+        if SAVE:
+            json.dump(results, open(resf, 'w'), indent=1, sort_keys=True)
+    if SAVE:
         json.dump(results, open(resf, 'w'), indent=1, sort_keys=True)
-    json.dump(results, open(resf, 'w'), indent=1, sort_keys=True)
     return 1 if bad else 0
 
 
